@@ -335,6 +335,24 @@ CHECKS["C08"] = dict(
     technique="Lean 4 theorems (derived connectives, quantifier push-in laws + proved counterexample) + differential evaluation of sugared vs hand-expanded core constraints against the verified reference",
 )
 
+CHECKS["C21"] = dict(
+    category="other",
+    text="The independent checks are EXECUTABLE SPECIFICATIONS written in Lean from the formats' own rules, not from the ISLa constraints "
+    "(Model/Formats.lean: quote-aware CSV field counts; XML tag balance, attribute uniqueness per tag and namespace prefixes declared in scope; "
+    "simple-TAR 216-byte entries with NUL-padded names, 6-digit octal checksum over the header with the checksum field blanked, type flag and "
+    "link target among the archive's entries; reST on the derivation tree: underline at least as long as the title, link targets unique and "
+    "defined, adjacent enumeration items numbered n, n+1 with n > 0), pinned down by theorems and accepted / rejected examples "
+    "(Properties/C21.lean). They are not models of ISLa code: nothing about the solver's search is proved, so the claim over ALL seeds and cost "
+    "settings is explored, not proved. Tie: the real solver runs on the shipped grammar + constraints under a grid of random seeds, "
+    "instantiation limits, cost-weight vectors and queue settings, and EVERY generated input is judged by the compiled specification; for reST, "
+    "docutils itself (when importable) is run on every generated document as an additional external oracle.",
+    design_ref="DESIGN.md section 7 C21",
+    note="The Lean specifications are part of the trusted base (they define 'valid'). The docutils clause cannot be expressed by a Lean model; "
+    "docutils is used as an external oracle only. Known finding: the shipped reST numbering constraint is vacuous (consecutive() never holds for "
+    "two enumeration items because of the line-feed leaf between them), so non-consecutive enumerations are generated.",
+    technique="Lean 4 executable specifications of the four formats (+ theorems about them) judging every input the real solver generates from the shipped formalizations",
+)
+
 NOT_APPLICABLE = {
     "C22": "reproducibility across fresh processes depends on hash randomisation, Z3 seeds/timeouts and wall-clock time; a functional Lean model would prove determinism vacuously and no executable model can exhibit the failure (DESIGN.md section 8)",
 }
